@@ -20,6 +20,15 @@ package c16
 // unit LiveStall (same case type, same run function) holds one answer for 2.5-3 s - longer
 // than the slack of the causal bounds - so that a tick time that is counted, cached or
 // otherwise detached from the clock shows as a time range that lags behind the schedule.
+//
+// Unit LiveCron (same case type, same run function): the schedule is a .cron() expression
+// with a seconds field (the finest a cron schedule offers: one tick per 1-3 s), run live for
+// 2-4 ticks. On top of the Live assertions the tick recovered from every live query
+// (stop + offset) must be a time of the cron schedule - exactly, to the nanosecond: the tick
+// IS the scheduled time, not the instant somebody woke up for it - because that is what makes
+// the live query the query the historical list holds for that tick. After the per-tick
+// comparison the historical list of the whole span covered by the live ticks is compared with
+// the live queries as a list (units whose ticks lie on a grid: cron and align()).
 
 import (
 	"fmt"
@@ -47,6 +56,15 @@ const liveRule = "rapid: live StartBatching against a fake InfluxDB, every 10-30
 const liveStallRule = "rapid: the Live case family (every 10-30 ms, align() in 3 of 4 cases) with the answer to one of the first three live queries held by the fake InfluxDB for 2.5-3 s (100-300 ticks pass unread), " +
 	"then 3-5 more queries; all Live assertions plus the lower causal bound on every tick; non-trivial = align() (the ticker whose tick times are computed by kapacitor, not by the Go ticker); distinct by case hash"
 
+const liveCronRule = "rapid: live StartBatching against a fake InfluxDB on a .cron() schedule with a seconds field (every second / every 2nd / every 3rd second, several spellings, residue 0 or 1), " +
+	"period/offset/groupBy (intervals around 1 s)/alignGroup/fill/WHERE tree without time predicates, 2-4 ticks (1-3 s apart), one case in four with one answer held for 1.2-2.5 s (a tick waits or is skipped), " +
+	"each live query compared with BatchQueries over a span ending at its tick with a generated phase within the cron step, then the whole span at once; non-trivial = every case that saw >= 2 live queries (a cron schedule executed against the wall clock); distinct by case hash"
+
+// cronCausalSlack: how far a cron tick may lie before StartBatching or after the arrival of its
+// own query (both never happen; the slack covers adjustments of the wall clock between two
+// readings 1-3 s apart).
+const cronCausalSlack = int64(500 * time.Millisecond)
+
 // pendingTicks: how many ticks can be waiting for the query node while it is busy.
 const pendingTicks = 2
 
@@ -55,7 +73,15 @@ var liveAssumptions = []string{
 	"a live task whose first tick is T was started in [T-every, T); the historical span used for the comparison starts at T-every+phase with phase in [0, every) (0 without align)",
 	"no user time predicates in the live unit (the tick is recovered from the query's own time range)",
 	"lower causal bound (from the code, batch.go): QueryNode.doQuery handles one tick at a time (take a tick, send the query, wait for the answer); of the ticks that pass meanwhile at most two are kept - one value in the Go ticker's channel and, under align(), one in the goroutine that rounds it - the rest is dropped by time.Ticker; hence the tick of live query i happened after the answer to query i-3 was handed back: stop+offset >= returned(i-3) - every (align() rounds to the nearest boundary) - 2 s (the slack of the other causal bounds). The fake InfluxDB holds one generated answer (slow InfluxDB) to open a gap the bound can see; a query further behind was not issued on the tick it claims - its range is not [tick-offset-period, tick-offset) for the tick that triggered it",
+	"whole-span comparison (schedules whose ticks lie on a grid: align() and cron): a task started at first-step+phase (phase in [0, step), the generated phase of the first tick) has the grid times first, first+step, ..., last as its ticks up to 'last'; BatchQueries over that span must return exactly that many queries and the live query of every observed tick must be the entry at its place. Live ticks may be missing (dropped while the node was busy) or repeated - a missing tick is not a failure, the historical list is what live ticks 'would have issued'",
 }
+
+var liveCronAssumptions = append(append([]string(nil), liveAssumptions...),
+	"cron, live: 'ticks follow cron()' is read as: the tick time a live query is built from (stop + offset; pipeline/batch.go: 'If the cron specifies to run every Sunday at 1 AM and the Offset is 1 hour. Then at 1 AM on Sunday the data from 12 AM will be queried') is the scheduled time itself, to the nanosecond - the wake-up latency of the process is not part of it. This is what the property's last clause needs: the historical list (cronTicker.Next) holds the scheduled times, so a live query is 'the query of its tick' only if it carries the same instant",
+	"cron expressions of the live unit have a seconds field (7 fields, gorhill/cronexpr) and step 1, 2 or 3 s (divisors of 60: the occurrences are the whole seconds t with t % M == R); the local zone is UTC (whole-minute zone offsets do not move such schedules); coarser schedules would need minutes per case",
+	"cron, live: the cron ticker hands over one tick at a time (unbuffered channel, batch.go) and computes the next occurrence after the hand-over, so at most one tick waits for a busy node and occurrences that pass meanwhile are skipped; skipped and repeated ticks are labels, not failures",
+	"cron, live, causal window (from the code, batch.go cronTicker.Start): the first tick is the first occurrence after the instant the ticker was started and a tick is handed over only after a timer set to its distance has fired (Go timers do not fire early); hence StartBatching < tick <= arrival of its query, on one wall clock. Asserted with 500 ms of slack (half the finest cron step) for adjustments of the wall clock between the two readings - a tick further in the future is the occurrence after the one that triggered the query",
+)
 
 // genLive: longStall false - unit Live (one case in three has a short stall of 2-8 ticks);
 // true - unit LiveStall (every case has a stall of 2.5-3 s).
@@ -122,7 +148,86 @@ func genLive(rec *kit.Rec, longStall bool) func(t *rapid.T) LiveCase {
 	}
 }
 
-const liveHangBound = 300 * time.Second // >= 1000 x the 0.04-0.25 s a case needs (plus the time the fake itself holds an answer)
+// liveCrons: cron expressions with a seconds field whose occurrences are t % M == R (whole
+// seconds, any zone with a whole-minute offset). Several spellings of the same schedule: the
+// expression goes through gorhill/cronexpr, the reference is arithmetic.
+var liveCrons = []Cron{
+	{Expr: "* * * * * * *", M: 1, Kind: "live/every-second"},
+	{Expr: "*/1 * * * * * *", M: 1, Kind: "live/every-second"},
+	{Expr: "0-59 * * * * * *", M: 1, Kind: "live/every-second"},
+	{Expr: "0-59/1 * * * * * *", M: 1, Kind: "live/every-second"},
+	{Expr: "*/2 * * * * * *", M: 2, Kind: "live/second-step-2"},
+	{Expr: "0-59/2 * * * * * *", M: 2, Kind: "live/second-step-2"},
+	{Expr: "1-59/2 * * * * * *", M: 2, R: 1, Kind: "live/second-step-2+1"},
+	{Expr: "*/3 * * * * * *", M: 3, Kind: "live/second-step-3"},
+}
+
+// genLiveCron: unit LiveCron. The case takes (first tick: up to M s) + (NTicks-1)*M s + stall.
+func genLiveCron(rec *kit.Rec) func(t *rapid.T) LiveCase {
+	return func(t *rapid.T) LiveCase {
+		var c LiveCase
+		cr := liveCrons[wpick(t, "cron", 3, 2, 1, 1, 2, 1, 2, 1)]
+		c.Cron = &cr
+		c.Period = rapid.SampledFrom([]Dur{{1, "s"}, {10, "s"}, {1500, "ms"}, {3, "m"}, {1, "h"}, {0, "ms"}, {7, "ms"}}).Draw(t, "period")
+		c.Offset = rapid.SampledFrom([]Dur{{0, "s"}, {0, "s"}, {3, "ms"}, {2, "s"}, {500, "ms"}, {1, "h"}, {24, "h"}}).Draw(t, "offset")
+		genStatement(t, rec, &c.Case)
+		// group-by-time intervals that interact with a schedule of whole seconds
+		for i := range c.GroupBy {
+			if d := &c.GroupBy[i]; d.Kind == "time" || d.Kind == "bare" {
+				d.Every = rapid.SampledFrom([]Dur{{1, "s"}, {2, "s"}, {3, "s"}, {700, "ms"}, {1, "m"}, {7, "ms"}}).Draw(t, "gbEveryLive")
+			}
+		}
+		genSources(t, &c.Case, true)
+		genWhere(t, rec, &c.Case, nil)
+		m := cr.M * 1e9
+		switch cr.M {
+		case 1:
+			c.NTicks = 2 + wpick(t, "nticks", 1, 2, 1)
+		default:
+			c.NTicks = 2
+		}
+		// one slow answer: the waiting tick is handed over late (1.2 s: none skipped at M = 1;
+		// 2.5 s: one or two occurrences pass unused), the ticks after it are on the schedule again
+		if cr.M == 1 && wpick(t, "stall", 3, 1) == 1 {
+			c.StallAt = wpick(t, "stallAt", 1, 1)
+			c.StallNs = rapid.SampledFrom([]int64{1200e6, 2500e6}).Draw(t, "stallNs")
+			if n := c.StallAt + 3; c.NTicks < n {
+				c.NTicks = n
+			}
+		}
+		for i := 0; i < c.NTicks; i++ {
+			var ph int64
+			switch wpick(t, "phaseKind", 1, 1, 1, 1, 1, 3) {
+			case 0:
+				ph = 0
+			case 1:
+				ph = m/2 - 1
+			case 2:
+				ph = m / 2
+			case 3:
+				ph = m - 1
+			case 4:
+				ph = 1
+			default:
+				ph = rapid.Int64Range(0, m-1).Draw(t, "phase")
+			}
+			c.Phases = append(c.Phases, ph)
+		}
+		return c
+	}
+}
+
+// onCronSchedule: t (ns) is an occurrence of the restricted cron family (local zone UTC).
+func (c Cron) onSchedule(t int64) bool {
+	m, r := c.M*1e9, c.R*1e9
+	return ((t-r)%m+m)%m == 0
+}
+
+// liveHangBound: >= 1000 x the 0.04-0.25 s a case needs (plus the time the fake itself holds an
+// answer). A cron case waits for the schedule itself - (NTicks+1) * step + stall <= 12 s of wall
+// clock by construction, not work - and the bound then allows 288 s of latency on top of it
+// (normally milliseconds).
+const liveHangBound = 300 * time.Second
 
 func runLive(lc LiveCase, cc *kit.Case) {
 	c := lc.Case
@@ -135,11 +240,18 @@ func runLive(lc LiveCase, cc *kit.Case) {
 	}
 	rtSel, _ := parseSelect(userSel.String())
 	every, per, off := c.Every.Ns(), c.Period.Ns(), c.Offset.Ns()
+	if c.Cron != nil {
+		every = c.Cron.M * 1e9 // the step of the schedule
+	}
 	td := c.timeDim()
 
-	if c.Align {
+	switch {
+	case c.Cron != nil:
+		cc.Label("live:cron")
+		cc.Label("sched:cron/" + c.Cron.Kind)
+	case c.Align:
 		cc.Label("live:align")
-	} else {
+	default:
 		cc.Label("live:every")
 	}
 	if td != nil {
@@ -166,7 +278,9 @@ func runLive(lc LiveCase, cc *kit.Case) {
 	if lc.StallNs > 0 && c.Align {
 		cc.Label("live:align+stall")
 	}
-	if long {
+	if c.Cron != nil {
+		// counted below, once two live queries were seen
+	} else if long {
 		if c.Align {
 			cc.NonTrivial()
 		}
@@ -232,6 +346,7 @@ func runLive(lc LiveCase, cc *kit.Case) {
 	}
 	slack := every + int64(2*time.Second)
 	var prevTick int64
+	var ticks []int64    // the ticks of the live queries, in order of arrival
 	staleAfterStall := 0 // queries after the slow answer whose tick passed before it came back
 	for i, s := range obs {
 		em, err := parseSelect(s)
@@ -259,6 +374,14 @@ func runLive(lc LiveCase, cc *kit.Case) {
 			cc.Fail("live/tick-not-aligned", "%s\n%s: %s\nstop + offset = %s is not a multiple of %s", script, what, s, iso(tick), c.Every)
 			return
 		}
+		// cron: the tick is a time of the schedule, exactly
+		if c.Cron != nil && !c.Cron.onSchedule(tick) {
+			cc.Fail("live/cron-tick-off-schedule", "%s\n%s: %s\nstop + offset = %s is not a time of the schedule cron('%s') (whole seconds t with t %% %d == %d); the query arrived at %s. "+
+				"The range asked for is [%s, %s) instead of [T-offset-period, T-offset) for the scheduled T, and no historical list holds this query",
+				script, what, s, iso(tick), c.Cron.Expr, c.Cron.M, c.Cron.R, iso(at[i].UnixNano()), iso(S), iso(E))
+			return
+		}
+		ticks = append(ticks, tick)
 		// The order of ticks is NOT asserted. It was, and it is not robust: with the machine
 		// oversubscribed (load > 100 on 16 cores) the Go runtime delivered two pending ticker
 		// values out of order (one sender was descheduled between reading the clock and
@@ -267,7 +390,13 @@ func runLive(lc LiveCase, cc *kit.Case) {
 		if i > 0 && tick < prevTick {
 			cc.Label("live:tick-order-inversion")
 		}
-		if tick < t0.UnixNano()-slack || tick > at[i].UnixNano()+slack {
+		// cron: no rounding and no ticker period between the clock and the tick - the tick is an
+		// occurrence after StartBatching that has been reached when its query arrives
+		cslack := slack
+		if c.Cron != nil {
+			cslack = cronCausalSlack
+		}
+		if tick < t0.UnixNano()-cslack || tick > at[i].UnixNano()+cslack {
 			sig := "live/tick-outside-causal-window"
 			if d := tick - at[i].UnixNano(); off > 0 && d > 2*off-slack && d < 2*off+slack {
 				sig = "query/schedule/offset-sign"
@@ -288,6 +417,9 @@ func runLive(lc LiveCase, cc *kit.Case) {
 		}
 		if i > 0 && tick == prevTick {
 			cc.Label("live:repeated-tick")
+		}
+		if c.Cron != nil && i > 0 && tick > prevTick+every {
+			cc.Label("live:cron-occurrence-skipped")
 		}
 		prevTick = tick
 
@@ -331,6 +463,51 @@ func runLive(lc LiveCase, cc *kit.Case) {
 	if long {
 		cc.Label(fmt.Sprintf("live:ticks-kept-during-long-stall=%d", staleAfterStall))
 	}
+	if c.Cron != nil && len(ticks) >= 2 {
+		cc.NonTrivial()
+	}
+	// ---- the whole span at once (ticks on a grid): the historical list of the span the live
+	// ticks cover holds, at the place of every observed tick, the query that tick issued
+	if (c.Cron != nil || c.Align) && len(ticks) > 0 && len(lc.Phases) > 0 {
+		first, last := ticks[0], ticks[0]
+		for _, tk := range ticks {
+			if tk < first {
+				first = tk
+			}
+			if tk > last {
+				last = tk
+			}
+		}
+		for time.Now().UnixNano() <= last { // BatchQueries cuts the list at "now"
+			time.Sleep(time.Millisecond)
+		}
+		hs := first - every + lc.Phases[0]
+		bqs, err := hist.BatchQueries(time.Unix(0, hs).UTC(), time.Unix(0, last).UTC())
+		if err != nil || len(bqs) != 1 {
+			cc.Fail("query/historical-failed", "%s\nBatchQueries(%s, %s): %d lists, err %v", script, iso(hs), iso(last), len(bqs), err)
+			return
+		}
+		hq := bqs[0].Queries
+		if want := (last-first)/every + 1; int64(len(hq)) != want {
+			var hstrs []string
+			for _, q := range hq {
+				if len(hstrs) < 12 {
+					hstrs = append(hstrs, q.String())
+				}
+			}
+			cc.Fail("query/schedule/tick-times", "%s\nlive ticks from %s to %s (step %s): BatchQueries(%s, %s) returns %d queries, the schedule has %d ticks in that span\n    %v",
+				script, iso(first), iso(last), time.Duration(every), iso(hs), iso(last), len(hq), want, hstrs)
+			return
+		}
+		for i, tk := range ticks {
+			if hstr := hq[(tk-first)/every].String(); hstr != obs[i] {
+				cc.Fail("query/live-vs-historical-differ", "%s\nlive tick %s issued\n    %s\nentry %d of BatchQueries(%s, %s) - the query of that tick in the historical list of the whole live span (%d queries) - is\n    %s",
+					script, iso(tk), obs[i], (tk-first)/every, iso(hs), iso(last), len(hq), hstr)
+				return
+			}
+		}
+		cc.Label("live:whole-span-compared")
+	}
 	x.strictVerdict(cc)
 }
 
@@ -346,6 +523,16 @@ func TestLiveStall(t *testing.T) {
 
 func TestReplayLiveStall(t *testing.T) {
 	r := kit.NewRec("C16", "LiveStall", liveStallRule, liveAssumptions...)
+	kit.Replay(t, r, runLive)
+}
+
+func TestLiveCron(t *testing.T) {
+	r := kit.NewRec("C16", "LiveCron", liveCronRule, liveCronAssumptions...)
+	kit.Check(t, r, genLiveCron(r), runLive)
+}
+
+func TestReplayLiveCron(t *testing.T) {
+	r := kit.NewRec("C16", "LiveCron", liveCronRule, liveCronAssumptions...)
 	kit.Replay(t, r, runLive)
 }
 
